@@ -13,6 +13,11 @@ from sa.engine.source import AnalysisError, norm, own_walk, stmt_of
 from .common import SYNC, dominates_all_exits
 
 
+# members that may answer from the adapter's own state while nothing is materialised yet (pure queries, and the two mutators whose
+# effect is recorded and replayed at materialisation); every *operation* has to go through the real primitive
+PRE_MATERIALISATION_OK = {"statistics", "is_set", "set", "value", "max_value", "total_tokens", "borrowed_tokens", "available_tokens"}
+
+
 def _params(fn) -> list[str]:
     a = fn.args
     return [x.arg for x in a.posonlyargs + a.args][1:] + [x.arg for x in a.kwonlyargs]
@@ -104,9 +109,15 @@ def check_adapter(ctx, rule: str, adapter: str, inner: str, prop: str, creator: 
         def step(st, e, c):
             return True if not c.is_exc else st
 
-        def at_exit(kind, st, facts, name=name):
-            if kind == "return" and not st and (f"self.{inner} is None", True) not in facts:
-                return f"{adapter}.{name} returns without forwarding although the wrapped object exists"
+        may_skip = base in PRE_MATERIALISATION_OK and not isinstance(fn, ast.AsyncFunctionDef) or base == "__aexit__"
+
+        def at_exit(kind, st, facts, name=name, may_skip=may_skip):
+            if kind == "return" and not st:
+                if not may_skip:
+                    return (f"{adapter}.{name} can return without forwarding to the wrapped object: an operation (acquire/release/wait/...) must reach the "
+                            f"real primitive on every path - it checks ownership, cancellation and yields there")
+                if (f"self.{inner} is None", True) not in facts:
+                    return f"{adapter}.{name} returns without forwarding although the wrapped object exists"
             return None
 
         ctx.paths(rule, f, [("fwd", [is_fwd])], step, False, at_exit, instance=f"{adapter}.{name}: forwards on every path once materialised")
